@@ -41,6 +41,8 @@ pub struct Config {
     pub free_fn_impls: BTreeMap<String, String>,
     /// R-fornext: `for PAT in X.m(..) BODY` with m listed here (m returns an iterator modelled by its `next`)
     pub for_next: Vec<String>,
+    /// R-selfmut: methods (selectors) whose `&self` receiver mutates the rowan tree through interior mutability
+    pub self_mut: Vec<String>,
 }
 
 impl Config {
@@ -55,6 +57,9 @@ impl Config {
             for (k, v) in m {
                 c.ident_map.insert(k.clone(), v.as_str().unwrap().to_string());
             }
+        }
+        if let Some(a) = u["self_mut"].as_array() {
+            c.self_mut = a.iter().map(|v| v.as_str().unwrap().to_string()).collect();
         }
         if let Some(a) = u["for_next"].as_array() {
             c.for_next = a.iter().map(|v| v.as_str().unwrap().to_string()).collect();
@@ -589,6 +594,13 @@ impl<'a> VisitMut for Rewriter<'a> {
         if let Expr::Match(m) = e {
             if let Some(n) = self.rewrite_str_match(m) {
                 *e = n;
+            }
+        }
+        // R-emptyarray: `[]` (an empty `impl IntoIterator` argument) => `Vec::new()`
+        if let Expr::Array(a) = e {
+            if a.elems.is_empty() {
+                fire(self.fired, "R-emptyarray");
+                *e = parse_quote!(Vec::new());
             }
         }
         // R-splitchar: `X.split(C).map(|x| x.to_string()).collect()` => vx_split_char_strings(X, C)
@@ -1612,6 +1624,19 @@ pub fn unshadow_params(sig: &syn::Signature, block: &mut Block, fired: &mut Fire
     let mut u = Un { params: &params, n: 0 };
     u.visit_block_mut(block);
     for _ in 0..u.n { fire(fired, "R-unshadow"); }
+}
+
+/// R-selfmut: `fn m(&self, ..)` => `fn m(&mut self, ..)` for the methods listed in unit.json `self_mut`.
+/// rowan's mutable trees are edited through `&self` (interior mutability); the tree model edits through `&mut self`.
+pub fn self_mut(selector: &str, cfg: &Config, sig: &mut syn::Signature, fired: &mut Fired) {
+    if !cfg.self_mut.iter().any(|s| s == selector) { return; }
+    if let Some(syn::FnArg::Receiver(r)) = sig.inputs.first_mut() {
+        if r.reference.is_some() && r.mutability.is_none() {
+            r.mutability = Some(Default::default());
+            if let syn::Type::Reference(tr) = &mut *r.ty { tr.mutability = Some(Default::default()); }
+            fire(fired, "R-selfmut");
+        }
+    }
 }
 
 pub fn mut_self(sig: &mut syn::Signature, block: &mut Block, fired: &mut Fired) {
